@@ -140,8 +140,9 @@ enum Op {
     Forward(Vec<usize>),
     Reverse(Vec<usize>),
     Via(Vec<usize>, Vec<usize>),
-    /// algorithm ("dijkstra" | "astar" | "via2" | "via3"), origin vertex, destination vertex
-    Search(String, usize, usize),
+    /// algorithm ("dijkstra" | "astar" | "via2" | "via3" | "via4"), origin, destination (vertex ids, or edge ids for an
+    /// edge-oriented search), edge-oriented
+    Search(String, usize, usize, bool),
 }
 #[derive(Clone, Debug)]
 struct Case {
@@ -214,7 +215,7 @@ fn case_json(c: &Case) -> Value {
             Op::Forward(es) => json!({"kind": "forward", "es": es}),
             Op::Reverse(es) => json!({"kind": "reverse", "es": es}),
             Op::Via(f, r) => json!({"kind": "via", "fwd": f, "rev": r}),
-            Op::Search(a, s, d) => json!({"kind": "search", "alg": a, "src": s, "dst": d}),
+            Op::Search(a, s, d, eo) => json!({"kind": "search", "alg": a, "src": s, "dst": d, "edge_oriented": eo}),
         },
         "summary": c.summary,
     })
@@ -275,7 +276,7 @@ fn case_from(v: &Value) -> Case {
             "forward" => Op::Forward(usv(&v["op"]["es"])),
             "reverse" => Op::Reverse(usv(&v["op"]["es"])),
             "via" => Op::Via(usv(&v["op"]["fwd"]), usv(&v["op"]["rev"])),
-            _ => Op::Search(v["op"]["alg"].as_str().unwrap().into(), us(&v["op"]["src"]), us(&v["op"]["dst"])),
+            _ => Op::Search(v["op"]["alg"].as_str().unwrap().into(), us(&v["op"]["src"]), us(&v["op"]["dst"]), v["op"]["edge_oriented"].as_bool().unwrap_or(false)),
         },
         summary: v["summary"].as_bool().unwrap_or(true),
     }
@@ -373,8 +374,15 @@ struct Outcome {
     init: Vec<f64>,
     routes: Vec<(String, Route)>,
     summary: Summ,
-    /// for Op::Search: the edge sequences the search returned
+    /// for Op::Search: the edge sequences the search returned (edge-oriented frame: the edges between the end edges)
     found: Vec<Vec<usize>>,
+    /// for Op::Search: one response with (possibly) several routes, each with its own summary
+    multi: bool,
+    sums: Vec<Summ>,
+    /// edge-oriented search between two edges that are neither equal nor adjacent: (source, target)
+    frame: Option<(usize, usize)>,
+    /// whether the routes were rendered by the output plugin
+    rendered: bool,
 }
 
 fn state_class(e: &StateModelError) -> String {
@@ -613,8 +621,56 @@ fn summary_inner(plugin: &TraversalPlugin, si: &SearchInstance, route: &[EdgeTra
     Some(kv)
 }
 
+/// every route of ONE result rendered by ONE call of the output plugin: `route` is an object (one route) or an array
+fn summaries_multi(plugin: &TraversalPlugin, si: &SearchInstance, routes: &[Vec<EdgeTraversal>]) -> Vec<Summ> {
+    let rs: Vec<Vec<EdgeTraversal>> = routes.to_vec();
+    let r = catch(AssertUnwindSafe(|| -> Option<Vec<Summ>> {
+        let res = SearchAppResult { routes: rs.clone(), trees: vec![], search_executed_time: String::new(), search_runtime: std::time::Duration::ZERO, iterations: 0 };
+        let mut out = json!({});
+        plugin.process(&mut out, &Ok((res, clone_si(si)))).ok()?;
+        let v = out.get("route")?;
+        let objs: Vec<&Value> = match v {
+            Value::Array(a) => a.iter().collect(),
+            Value::Object(_) => vec![v],
+            _ => vec![],
+        };
+        if objs.len() != rs.len() {
+            return None;
+        }
+        Some(
+            objs.iter()
+                .zip(rs.iter())
+                .map(|(r, route)| {
+                    let path = r.get("path").and_then(|p| p.as_array()).cloned().unwrap_or_default();
+                    let mut same = path.len() == route.len();
+                    for (j, et) in path.iter().zip(route.iter()) {
+                        let st: Vec<f64> = j["result_state"].as_array().map(|a| a.iter().map(|x| x.as_f64().unwrap_or(f64::NAN)).collect()).unwrap_or_default();
+                        same = same
+                            && j["edge_id"].as_u64() == Some(et.edge_id.0 as u64)
+                            && j["access_cost"].as_f64().map(f64::to_bits) == Some(et.access_cost.as_f64().to_bits())
+                            && j["traversal_cost"].as_f64().map(f64::to_bits) == Some(et.traversal_cost.as_f64().to_bits())
+                            && st.len() == et.result_state.len()
+                            && st.iter().zip(et.result_state.iter()).all(|(a, b)| a.to_bits() == b.0.to_bits());
+                    }
+                    let mut kv: Vec<(String, f64)> = r.get("traversal_summary").and_then(|x| x.as_object()).map(|m| m.iter().map(|(k, v)| (k.clone(), v.as_f64().unwrap_or(f64::NAN))).collect()).unwrap_or_default();
+                    if !same {
+                        kv.push(("PATH-MISMATCH".into(), 0.0));
+                    }
+                    kv.sort_by(|a, b| a.0.as_bytes().cmp(b.0.as_bytes()));
+                    Summ::Some(kv)
+                })
+                .collect(),
+        )
+    }));
+    match r {
+        Err(_) => routes.iter().map(|_| Summ::Panic).collect(),
+        Ok(None) => routes.iter().map(|_| Summ::None).collect(),
+        Ok(Some(v)) => v,
+    }
+}
+
 fn run_impl(c: &Case, dir: &Path, plugin: &TraversalPlugin) -> Outcome {
-    let mut o = Outcome { build_err: None, init: vec![], routes: vec![], summary: Summ::None, found: vec![] };
+    let mut o = Outcome { build_err: None, init: vec![], routes: vec![], summary: Summ::None, found: vec![], multi: false, sums: vec![], frame: None, rendered: false };
     let si = match catch(AssertUnwindSafe(|| build_instance(c, dir))) {
         Err(_) => {
             o.build_err = Some("Panic".into());
@@ -665,22 +721,46 @@ fn run_impl(c: &Case, dir: &Path, plugin: &TraversalPlugin) -> Outcome {
                 o.routes.push(("rev".into(), rr));
             }
         }
-        Op::Search(alg, s, d) => {
+        Op::Search(alg, s, d, eo) => {
+            o.multi = true;
+            let via = |k: usize, astar: bool| SearchAlgorithm::KspSingleVia {
+                k,
+                underlying: Box::new(if astar { SearchAlgorithm::AStarAlgorithm { weight_factor: None } } else { SearchAlgorithm::Dijkstra }),
+                similarity: None,
+                termination: None,
+            };
             let a = match alg.as_str() {
                 "dijkstra" => SearchAlgorithm::Dijkstra,
                 "astar" => SearchAlgorithm::AStarAlgorithm { weight_factor: None },
-                "via2" => SearchAlgorithm::KspSingleVia { k: 2, underlying: Box::new(SearchAlgorithm::Dijkstra), similarity: None, termination: None },
-                _ => SearchAlgorithm::KspSingleVia { k: 3, underlying: Box::new(SearchAlgorithm::AStarAlgorithm { weight_factor: None }), similarity: None, termination: None },
+                "via2" => via(2, false),
+                "via3" => via(3, true),
+                _ => via(4, false),
             };
-            let r = catch(AssertUnwindSafe(|| a.run_vertex_oriented(VertexId(*s), Some(VertexId(*d)), &json!({}), &Direction::Forward, &si)));
+            let r = catch(AssertUnwindSafe(|| {
+                if *eo {
+                    a.run_edge_oriented(EdgeId(*s), Some(EdgeId(*d)), &json!({}), &Direction::Forward, &si)
+                } else {
+                    a.run_vertex_oriented(VertexId(*s), Some(VertexId(*d)), &json!({}), &Direction::Forward, &si)
+                }
+            }));
+            // edge-oriented between two edges that are neither equal nor adjacent: every route is framed by the two
+            // zero-cost end edges; equal edges give no route, adjacent edges the plain two-edge route
+            let framed = *eo && s != d && c.edges.get(*s).map(|e| e.1) != c.edges.get(*d).map(|e| e.0);
+            if framed {
+                o.frame = Some((*s, *d));
+            }
             match r {
                 Err(_) => o.routes.push(("r0".into(), Err("Panic".into()))),
                 Ok(Err(e)) => o.routes.push(("r0".into(), Err(format!("Err {}", classify(&e))))),
                 Ok(Ok(res)) => {
                     for (k, route) in res.routes.iter().enumerate() {
-                        o.found.push(route.iter().map(|et| et.edge_id.0).collect());
+                        let ids: Vec<usize> = route.iter().map(|et| et.edge_id.0).collect();
+                        o.found.push(if framed && ids.len() >= 2 { ids[1..ids.len() - 1].to_vec() } else { ids });
                         o.routes.push((format!("r{}", k), Ok(route.clone())));
                     }
+                    // the output plugin refuses a result with an empty route as a whole
+                    o.rendered = c.summary && !res.routes.is_empty() && res.routes.iter().all(|r| !r.is_empty());
+                    o.sums = if o.rendered { summaries_multi(plugin, &si, &res.routes) } else { res.routes.iter().map(|_| Summ::None).collect() };
                 }
             }
         }
@@ -719,11 +799,12 @@ fn show_outcome(o: &Outcome) -> String {
     if let Some(b) = &o.build_err {
         return format!("BuildErr {}", b);
     }
-    format!(
-        "{} sum={}",
-        o.routes.iter().map(|(n, r)| format!("{}={}/{}", n, show_route(r), show_list(&totals(r), |x| show_f64(*x)))).collect::<Vec<_>>().join(" "),
-        show_summary(&o.summary)
-    )
+    let routes = o.routes.iter().map(|(n, r)| format!("{}={}/{}", n, show_route(r), show_list(&totals(r), |x| show_f64(*x)))).collect::<Vec<_>>().join(" ");
+    if o.multi {
+        format!("{} sums={}", routes, show_list(&o.sums, show_summary))
+    } else {
+        format!("{} sum={}", routes, show_summary(&o.summary))
+    }
 }
 fn coq_route(r: &Route) -> String {
     match r {
@@ -745,15 +826,17 @@ fn coq_outcome(o: &Outcome) -> String {
     if let Some(b) = &o.build_err {
         return format!("(TR.OBuildErr {})", coq_string(b));
     }
+    let summ = |s: &Summ| match s {
+        Summ::None => "(Err \"none\"%string)".to_string(),
+        Summ::Panic => "(Panic \"\"%string)".to_string(),
+        Summ::Some(kv) => format!("(Ok {})", coq_list(kv, |(k, v)| format!("({}, {})", coq_string(k), coq_f64(*v)))),
+    };
     format!(
-        "(TR.ORoutes {} {} {})",
+        "({} {} {} {})",
+        if o.multi { "TR.OMultiRoutes" } else { "TR.ORoutes" },
         coq_list(&o.routes, |(n, r)| format!("({}, {})", coq_string(n), coq_route(r))),
         coq_list(&o.routes, |(_, r)| coq_list(&totals(r), |x| coq_f64(*x))),
-        match &o.summary {
-            Summ::None => "(Err \"none\"%string)".to_string(),
-            Summ::Panic => "(Panic \"\"%string)".to_string(),
-            Summ::Some(kv) => format!("(Ok {})", coq_list(kv, |(k, v)| format!("({}, {})", coq_string(k), coq_f64(*v)))),
-        }
+        if o.multi { coq_list(&o.sums, summ) } else { summ(&o.summary) }
     )
 }
 
@@ -775,25 +858,40 @@ fn turn_class(a: i64) -> &'static str {
 
 fn add_case(st: &mut Stream, c: Case, family: &str, dir: &Path, plugin: &TraversalPlugin) {
     let id = st.next_id();
-    let o = run_impl(&c, dir, plugin);
+    let mut o = run_impl(&c, dir, plugin);
+    // a search that finds no path returns nothing: nothing to judge (the model prints no route either)
+    let nopath = o.multi && !o.routes.is_empty() && o.routes.iter().all(|(_, r)| matches!(r, Err(s) if s == "Err nopath"));
+    if nopath {
+        st.count("status:Err nopath");
+        o.routes.clear();
+        o.sums.clear();
+    }
     // the operation the model runs: a real search is re-traversed along the routes it returned
     let op = match &c.op {
         Op::Forward(es) => format!("(TR.OForward {})", coq_nats(es)),
         Op::Reverse(es) => format!("(TR.OReverse {})", coq_nats(es)),
         Op::Via(f, r) => format!("(TR.OVia {} {})", coq_nats(f), coq_nats(r)),
-        Op::Search(_, _, _) => format!("(TR.OMulti {})", coq_list(&o.found, |es| coq_nats(es))),
+        Op::Search(_, _, _, _) => match o.frame {
+            Some((s, d)) => format!("(TR.OEdge {} {} {})", coq_nat(s), coq_nat(d), coq_list(&o.found, |es| coq_nats(es))),
+            None => format!("(TR.OMulti {})", coq_list(&o.found, |es| coq_nats(es))),
+        },
     };
-    let gen = coq_case(&c, &op);
+    // a search result is rendered by the output plugin only as a whole (not at all when it has an empty route)
+    let mut cc = c.clone();
+    if o.multi {
+        cc.summary = o.rendered;
+    }
+    let gen = coq_case(&cc, &op);
     let terms = vec![
         format!("TR.line_M {} {}", id, gen),
         format!("TR.line_S {} {} {} {}", id, gen, coq_list(&o.init, |x| coq_f64(*x)), coq_outcome(&o)),
     ];
     let mut payload = show_outcome(&o);
-    if let Op::Search(_, _, _) = &c.op {
+    if let Op::Search(_, _, _, _) = &c.op {
         // no path between the two vertices: nothing is returned, nothing to judge (the model prints no route either);
         // any other failure of the search is shown and makes the case differ
         if o.routes.iter().any(|(_, r)| r.is_err()) {
-            payload = if o.routes.iter().all(|(_, r)| matches!(r, Err(s) if s == "Err nopath")) { " sum=None".to_string() } else { format!("search-failed {}", payload) };
+            payload = if o.routes.iter().all(|(_, r)| matches!(r, Err(s) if s == "Err nopath")) { " sums=[]".to_string() } else { format!("search-failed {}", payload) };
         }
     }
     // ---- histogram
@@ -802,9 +900,28 @@ fn add_case(st: &mut Stream, c: Case, family: &str, dir: &Path, plugin: &Travers
         Op::Forward(es) => ("forward", vec![es.len()]),
         Op::Reverse(es) => ("reverse", vec![es.len()]),
         Op::Via(f, r) => ("via", vec![f.len() + r.len()]),
-        Op::Search(a, _, _) => (if a.starts_with("via") { "search-ksp" } else { "search" }, o.found.iter().map(|r| r.len()).collect()),
+        Op::Search(a, _, _, eo) => (
+            match (a.starts_with("via"), *eo) {
+                (true, true) => "search-ksp-edge-oriented",
+                (true, false) => "search-ksp",
+                (false, true) => "search-edge-oriented",
+                (false, false) => "search",
+            },
+            o.found.iter().map(|r| r.len()).collect(),
+        ),
     };
     st.count(&format!("op:{}", opname));
+    if o.multi {
+        let oks: Vec<&Vec<EdgeTraversal>> = o.routes.iter().filter_map(|(_, r)| r.as_ref().ok()).collect();
+        st.count(&format!("routes_in_result:{}", oks.len().min(5)));
+        let ends: std::collections::BTreeSet<Vec<u64>> = oks.iter().filter_map(|r| r.last().map(|et| et.result_state.iter().map(|x| x.0.to_bits()).collect())).collect();
+        if ends.len() >= 2 {
+            st.count("routes_end_in_different_states");
+        }
+        if o.frame.is_some() && !oks.is_empty() {
+            st.count("framed_by_zero_cost_end_edges");
+        }
+    }
     for l in &lens {
         st.count(&format!("route_edges:{}", if *l == 0 { "0".to_string() } else if *l <= 1 { "1".into() } else if *l <= 5 { "2-5".into() } else if *l <= 15 { "6-15".into() } else { "16-30".into() }));
     }
@@ -876,7 +993,7 @@ fn add_case(st: &mut Stream, c: Case, family: &str, dir: &Path, plugin: &Travers
                 whole.extend(r.iter().rev());
                 vec![(whole, true)]
             }
-            Op::Search(_, _, _) => o.found.iter().map(|r| (r.clone(), true)).collect(),
+            Op::Search(_, _, _, _) => o.found.iter().map(|r| (r.clone(), true)).collect(),
         };
         for (es, fwd) in seqs {
             for w in es.windows(2) {
@@ -1293,16 +1410,17 @@ fn random_case(r: &mut Rng, search: bool, pair_summary: bool) -> (Case, &'static
     } as usize;
     let (op, fam) = if search {
         let mut w = gen_walk(r, nv, &edges, len.min(12).max(3));
+        let eo = r.chance(2, 5);
         for _ in 0..6 {
-            if edges[w[0]].0 != edges[*w.last().unwrap()].1 {
+            let ok = if eo { w[0] != *w.last().unwrap() && edges[w[0]].1 != edges[*w.last().unwrap()].0 } else { edges[w[0]].0 != edges[*w.last().unwrap()].1 };
+            if ok {
                 break;
             }
             w = gen_walk(r, nv, &edges, len.min(12).max(3));
         }
-        let src = edges[w[0]].0;
-        let dst = edges[*w.last().unwrap()].1;
-        let alg = *r.pick(&["dijkstra", "astar", "via2", "via3"]);
-        (Op::Search(alg.into(), src, dst), "random_search")
+        let (src, dst) = if eo { (w[0], *w.last().unwrap()) } else { (edges[w[0]].0, edges[*w.last().unwrap()].1) };
+        let alg = *r.pick(&["dijkstra", "astar", "via2", "via2", "via3", "via3", "via4"]);
+        (Op::Search(alg.into(), src, dst, eo), if eo { "random_search_edge_oriented" } else { "random_search" })
     } else {
         match r.below(5) {
             0 | 1 | 2 => (Op::Forward(gen_walk(r, nv, &edges, len)), "random_forward"),
@@ -1437,6 +1555,23 @@ fn main() {
     let pair_summary = !a.extra.iter().any(|x| x == "no-pair-summary");
     match name.as_str() {
         "search" => {
+            // two alternatives that end in different states, vertex- and edge-oriented, distance and speed model
+            for (k, (alg, eo)) in [("via2", false), ("via2", true), ("via3", true), ("dijkstra", true), ("via4", false), ("via3", false)].iter().enumerate() {
+                let edges = vec![(1, 2, 1000.0), (2, 4, 1000.0), (1, 3, 1500.0), (3, 4, 1500.0), (0, 1, 500.0), (4, 5, 500.0)];
+                let speed = k % 2 == 1;
+                let c = Case {
+                    nv: 6,
+                    edges,
+                    features: std_features(if speed { "Meters" } else { "Kilometers" }, "Minutes"),
+                    user: vec![],
+                    tm: if speed { Tm::Speed { table: vec![40.0, 40.0, 80.0, 80.0, 30.0, 30.0], su: "KilometersPerHour".into(), du: Some("Kilometers".into()), tu: Some("Minutes".into()) } } else { Tm::Dist("Meters".into()) },
+                    am: if k % 3 == 0 { Am::None } else { Am::Turn { headings: vec![(0, None), (90, None), (45, None), (300, None), (10, None), (200, None)], table: full_table(2.0), unit: "Seconds".into(), fname: "time".into() } },
+                    cost: unit_cost(&["distance", "time"]),
+                    op: if *eo { Op::Search(alg.to_string(), 4, 5, true) } else { Op::Search(alg.to_string(), 1, 4, false) },
+                    summary: true,
+                };
+                add_case(&mut st, c, if *eo { "diamond_edge_oriented" } else { "diamond" }, &dir, &plugin);
+            }
             while st.next_id() < a.n {
                 let mut r = rng.fork();
                 let (c, fam) = random_case(&mut r, true, pair_summary);
